@@ -391,3 +391,62 @@ Definition explicit_train (ups : list nat) (r : nat) (m : tmodel) (k : nat) (e :
   explicit_train_from ups r m k (length steps =? 1) 0 e steps.
 
 End Train.
+
+(* ------------------------------------------------------------------------------------------------------------ *)
+(* 4. enumeration of small graphs (for the bounded theorem) and the structural class on which the staging works  *)
+(* ------------------------------------------------------------------------------------------------------------ *)
+Fixpoint inserts (x : nat) (l : list nat) : list (list nat) :=
+  match l with [] => [[x]] | y :: l' => (x :: l) :: map (cons y) (inserts x l') end.
+(* all ordered selections of distinct elements of l *)
+Fixpoint subperms (l : list nat) : list (list nat) :=
+  match l with [] => [[]] | x :: l' => let r := subperms l' in r ++ flat_map (inserts x) r end.
+Fixpoint sublists (l : list nat) : list (list nat) :=
+  match l with [] => [[]] | x :: l' => let r := sublists l' in r ++ map (cons x) r end.
+(* every DAG on nodes 0..n-1 whose topological order is 0,1,..,n-1, with every fan-in order: node j picks an ordered
+   list of parents among 0..j-1 *)
+Fixpoint edge_lists (n : nat) : list (list (nat * nat)) :=
+  match n with
+  | O => [[]]
+  | S j => flat_map (fun es => map (fun ps => es ++ map (fun p => (p, j)) ps) (subperms (seq 0 j))) (edge_lists j)
+  end.
+(* ... with every non-empty set of offline nodes *)
+Definition all_graphs (n : nat) : list graph :=
+  flat_map (fun es => map (fun off => mkG (seq 0 n) es off)
+                          (filter (fun o => negb (length o =? 0)) (sublists (seq 0 n)))) (edge_lists n).
+
+Fixpoint first_idx (v : nat) (i : nat) (stg : list stage) : option nat :=
+  match stg with
+  | [] => None
+  | s :: r => if mem v (s_nodes s) then Some i else first_idx v (S i) r
+  end.
+Fixpoint last_idx (v : nat) (i : nat) (stg : list stage) : option nat :=
+  match stg with
+  | [] => None
+  | s :: r => match last_idx v (S i) r with
+              | Some j => Some j
+              | None => if mem v (s_nodes s) then Some i else None
+              end
+  end.
+Definition onat_eqb (a b : option nat) : bool :=
+  match a, b with Some x, Some y => x =? y | _, _ => false end.
+
+(* the class of models on which Model.fit's staging is claimed to work:
+   S1  every offline node is fed by exactly one node (as in every Model: a fan-in goes through an inserted Concat);
+   S2  an offline node without children (an output readout) is trained in the LAST stage;
+   S3  a node with several parents (a Concat) runs in the stage in which each of its parents runs last. *)
+Definition supportedb (g : graph) (stg : list stage) : bool :=
+  forallb (fun v => length (parents g v) =? 1) (g_offl g)
+  && forallb (fun s => forallb (fun v => negb (offline g v && is_output g v)) (s_nodes s)) (removelast stg)
+  && forallb (fun v => (length (parents g v) <=? 1)
+                       || forallb (fun p => onat_eqb (last_idx p 0 stg) (first_idx v 0 stg)) (parents g v)) (g_nodes g).
+
+Definition staging_okb (g : graph) : bool :=
+  match get_offline_subgraphs g with
+  | None => false
+  | Some stg => negb (supportedb g stg) || valid_stagingb g (filter (is_input g) (g_nodes g)) (filter (offline g) (g_nodes g)) stg
+  end.
+(* offline sets in which every offline node has exactly one parent (S1) *)
+Definition labellings (n : nat) (es : list (nat * nat)) : list (list nat) :=
+  filter (fun o => negb (length o =? 0)) (sublists (filter (fun v => length (parents_in es v) =? 1) (seq 0 n))).
+Definition all_okb (n : nat) : bool :=
+  forallb (fun es => forallb (fun off => staging_okb (mkG (seq 0 n) es off)) (labellings n es)) (edge_lists n).
